@@ -18,7 +18,7 @@ which uses a structured syntax for representing conditional statements and belie
 import logging
 import os
 
-from antlr4 import CommonTokenStream, InputStream
+from antlr4 import CommonTokenStream, InputStream, Token
 from antlr4.error.ErrorListener import ErrorListener
 
 from inference.belief_base import BeliefBase
@@ -430,6 +430,7 @@ def parse_formula(string: str):
 
     # Parse formula rule
     tree = parser.formula()
+    _require_end_of_input(tokens, allow_newlines=True)
     visitor = myVisitor()
     # Initialize sigcheck so visitVar can record variables without attribute errors
     visitor.sigcheck = []
@@ -488,7 +489,27 @@ def _getParseTree(ckbs_string):
     parser.addErrorListener(_ThrowingErrorListener())
 
     tree = parser.ckbs()
+    _require_end_of_input(stream)
     return tree
+
+
+def _require_end_of_input(tokens, allow_newlines=False):
+    """
+    Raise if the start rule stopped before the end of the text.
+
+    The grammar's start rules are not anchored at EOF, so ANTLR stops silently after the
+    longest prefix it can derive (``"a b"`` would be read as ``a``, text after the final
+    ``}`` of a belief base would be ignored).
+    """
+    token = tokens.LT(1)
+    while allow_newlines and token.type == CKBParser.NEWLINE:
+        tokens.consume()
+        token = tokens.LT(1)
+    if token.type != Token.EOF:
+        raise Exception(
+            f"Syntax error at line {token.line}, column {token.column}: "
+            f"unexpected input {token.text!r} after the end of the expression"
+        )
 
 
 class _ThrowingErrorListener(ErrorListener):
